@@ -259,9 +259,7 @@ def pool_codec(ctx):
     ok = len(r3) == 1 and len(w3) == 1 and has_fact(Sr, r3[0][0], r"^p2$", True) and has_fact(Sw, w3[0][0], r"^p3$", True)
     ctx.check(ok, R, "third byte only with long_string_refs", "", "the third reference byte is not conditioned on long_string_refs on both sides", fr.loc(), fn=fr.name)
     # short mode refuses wide references
-    ws = [(b, t) for b, t in fw.calls() if (t.get("callee") or "").endswith("write_u16") and has_fact(Sw, b, r"^p3$", False)]
-    ok = len(ws) == 1 and any(re.search(r" Le \(?c:65535", e) and tr is True for (e, tr, g) in Sw.bool_facts_at(ws[0][0]))
-    ctx.check(ok, R, "short references are written only when they fit 16 bits", "", "StringRef::write truncates references above 0xffff in short mode", fw.loc(), fn=fw.name)
+    short_ref_bound(ctx, R)
 
     bit = prog.const(SP + "LONG_STRING_REFS_BIT")["val"]
     ctx.check(bit == 0x80000000, R, "LONG_STRING_REFS_BIT", hex(bit), "LONG_STRING_REFS_BIT is %#x, the format uses bit 31" % bit)
@@ -359,6 +357,24 @@ def pool_codec(ctx):
     ctx.check(len(ln) == 1 and "CodePage::encode" in ln[0][0], R2, "length word = encoded length", str(ln), "write_pool measures %s instead of the encoded bytes" % ln, g.loc(), fn=g.name)
     wa = [args for b, n, args, t, L in ucd if n == "std::io::Write::write_all"]
     ctx.check(len(wa) == 1 and "CodePage::encode" in wa[0][1], R2, "write_data emits the encoded bytes", str(wa), "write_data writes %s" % wa, d.loc(), fn=d.name)
+
+
+def short_ref_bound(ctx, rule):
+    """StringRef::write in two-byte mode: exactly the references 1..=0xffff are written, anything above is an error (neither truncated nor refused early)"""
+    from ..lib import interval_of
+    prog = ctx.prog
+    fw = prog.fn(SP + "StringRef::write")
+    Sw = Sym(prog, fw)
+    ws = [(b, t) for b, t in fw.calls() if (t.get("callee") or "").endswith("write_u16") and has_fact(Sw, b, r"^p3$", False)]
+    hi = None
+    if len(ws) == 1:
+        v = Sw.val(ws[0][1]["args"][1])
+        m = re.fullmatch(r"\((.*) as u16\)", v)
+        if m:
+            lo, hi, ex = interval_of(Sw.bool_facts_at(ws[0][0]), m.group(1))
+    ctx.check(len(ws) == 1 and hi == 65535, rule, "short references are written exactly when they fit 16 bits", "upper bound %s" % hi,
+              "StringRef::write in two-byte mode writes references up to %s: every reference up to 0xffff must be written (the pool hands out 65,535 of them) and none above "
+              "(it would be truncated)" % hi, fw.loc(), fn=fw.name, key=rule + "|short-ref-bound")
 
 
 def codec_e(ctx, rule="CODEC-E"):
